@@ -106,7 +106,8 @@ class World:
         t, ps = self.t, self.ps
         if kind == "spawn":           # ("spawn", pid, as_zombie, ppid?)
             pid = op[1]
-            p = t.spawn(pid, self.tick, ppid=(op[3] if len(op) > 3 else 1), comm=b"p%d" % self.tick)
+            comm = op[4].encode("latin-1") if len(op) > 4 and op[4] is not None else b"p%d" % self.tick
+            p = t.spawn(pid, self.tick, ppid=(op[3] if len(op) > 3 and op[3] is not None else 1), comm=comm)
             if len(op) > 2 and op[2]:
                 t.exit(pid, 0)
             rec["inc"] = p.inc
@@ -126,7 +127,7 @@ class World:
             p = t.procs[op[1]]
             if p.threads is None:
                 p.threads = [Thread(p.pid, p.comm)]
-            p.threads.append(Thread(op[2], b"thr"))
+            p.threads.append(Thread(op[2], op[3].encode("latin-1") if len(op) > 3 and op[3] else b"thr"))
         elif kind == "new":
             pid = op[1]
             inc = self.cur_inc(pid)
